@@ -1,7 +1,7 @@
 From Coq Require Import Extraction ExtrOcamlBasic.
 From Common Require Import Bytes Drv Blake2b Outcome.
-From Trie Require Import Nibbles Node Encode Model Spec.
+From Trie Require Import Nibbles Node Encode Model Spec GoSpec.
 From C02 Require Import Model Guards.
 Extraction "model.ml" drv_b2n drv_n2b drv_z_of_n drv_n_of_z drv_nat_of_n drv_n_of_nat
-  guard_of bmap_before trie_before pinned repaired trie_step run_trie run_bmap bm_step bm_listing is_panic
+  guard_of guard_go_of gm_step run_gomap bmap_before trie_before pinned repaired trie_step run_trie run_bmap bm_step bm_listing is_panic
   trie_root spec_root_bytes blake2b_256 bm_of_list V0 V1.
